@@ -1,4 +1,5 @@
 """C04 — Parse is total: nil error on success, else a well-formed ZodError, never a panic."""
+import os
 from . import common as C
 
 MANIFEST = dict(
@@ -7,33 +8,126 @@ MANIFEST = dict(
    note="PARTIAL (DESIGN §8): the theorem covers the SHAPE of errors built by composites from their members' errors; it does not cover primitives' own creators (coordinator's C01 model) nor panics. Panic-freedom and error shape over the cross product are observed on the implementation under recover(), i.e. tested on an enumerated cross product, not proved for all inputs. Trusted: Lean kernel; axioms propext/Classical.choice/Quot.sound only; the Go harness, errors.As, comparer. Schemas with user callbacks (Refine/Transform/Overwrite/Check/DefaultFunc) are outside the statement and not generated.",
    design="DESIGN.md §5 C04; notes/C04.md")
 
-MODULES = ["Gozod.Proofs.C04"]
+MODULES = ["Gozod.Proofs.C04", "Gozod.Proofs.C04Creators"]
 THEOREMS = ["Gozod.C04." + t for t in [
     "c04_error_wf", "c04_ok_no_error", "c04_inter_nil_path", "mergeUnrec_wf", "engine_wf",
     "sliceElems_wf", "objectFields_wf", "recordValues_wf",
+]] + ["Gozod.C04.Creators." + t for t in [
+    # statements over the tables regenerated from core/constants.go and internal/issues/{creators,finalize,formatters}.go
+    "codes_are_model_codes", "model_codes_known", "model_codes_complete", "codes_count",
+    "creators_error_wf", "creators_raw_code_known", "creators_raw_path_exceptions", "escaping_listed", "creators_nontrivial",
+    "finalize_literal", "finalize_path_fix", "finalize_message_assigns", "finalize_fallback_is_default",
+    "default_message_nonempty", "default_message_table_nontrivial", "finalize_wf",
 ]]
+
+# constructors of package gozod / coerce the harness may leave uncalled, with the reason (anything else breaks the tie)
+REVIEWED_UNCALLABLE = {
+    "gozod.Custom": "takes a user callback", "gozod.Function": "function schema: implementations are user callbacks",
+    "gozod.FunctionPtr": "function schema: implementations are user callbacks",
+    "gozod.Check": "takes a user callback", "gozod.CheckFn": "takes a user callback", "gozod.Refine": "takes a user callback",
+    "gozod.Transform": "takes a user callback", "gozod.Preprocess": "takes a user callback", "gozod.Overwrite": "takes a user callback",
+    "gozod.Lazy": "getter", "gozod.LazyPtr": "getter of a typed schema (hand instantiation gozod.Lazy#0 covers the typed form)",
+}
+# generic functions that are not schema constructors / take user callbacks (their entry in genericInst is empty on purpose)
+REVIEWED_GENERIC_EMPTY = {"gozod.NewRegistry", "gozod.Apply"}
+
+def translate(res):
+    """go/ast translators (harness/cmd/c04gen): the constructor table linked into the harness and the Lean tables of issue
+    codes / creators / FinalizeIssue / default messages. Files are rewritten only when their content changes."""
+    binp = os.path.join(C.BUILD, "bin", "c04gen")
+    with C.Lock("go"):
+        os.makedirs(os.path.dirname(binp), exist_ok=True)
+        rc, out = C.run(["go", "build", "-o", binp, "./cmd/c04gen"], cwd=C.HARNESS, env=C.goenv(), timeout=900)
+    if rc != 0: return "c04gen does not build:\n" + out[-2000:]
+    rc, out = C.run([binp, "-repo", C.REPO, "-ctors", os.path.join(C.HARNESS, "cmd", "c04", "ctors_gen.go"),
+                     "-lean", os.path.join(C.LEAN, "Gozod", "Gen")], timeout=300)
+    if rc != 0: return "c04gen cannot find what it translates:\n" + out[-2000:]
+    return ""
 
 def split(line):
     f = line.split("\t")
     return f[0], None          # the model column is the prediction; the statement itself is the oracle
 
+def family(label):
+    """the schema family of a case label: `gozod.X` / `coerce.X` (two components), else the text before the first . or ("""
+    import re
+    m = re.match(r"((?:gozod|coerce)\.[A-Za-z0-9_]+)", label)
+    if m: return m.group(1)
+    m = re.match(r"([A-Za-z0-9_\[\]]+)", label)
+    return m.group(1) if m else label[:20]
+
 def key(op, impl, M, S):
-    c = C.op_comment(op).split(" ")
-    kind = c[1] if len(c) > 1 else "?"
-    return "%s:%s" % (impl.replace("err(malformed:", "malformed:").rstrip(")"), kind)
+    """failure class = observation + the schema family + the class of the input that exposed it (never the literal input):
+         x-stream   <obs>:<family>:<value class>         value class: pointer chains lose their depth (**T->nil@1 -> T->nil), cyclic
+                                                        inputs are `cyclic-input` (`cyclic-ptr-to-interface` for the *any cycle)
+         zero-arg   <obs>:zero-arg:<Method>:<family>     the schema was built with the zero value of every parameter of <Method>
+         dflt       <obs>:dflt:<Default|Prefault>:<family>  a default / prefault value of the wrong shape
+         m-stream   <obs>:<container kind>"""
+    import re
+    body = C.op_body(op).split(" ")
+    c = C.op_comment(op).strip().split(" ")
+    kind = c[0] if c else "?"
+    ob = impl.replace("err(malformed:", "malformed:").rstrip(")")
+    if len(body) > 1 and body[1] == "m":
+        return "%s:%s" % (ob, kind)
+    label = " ".join(c[1:])
+    call = re.search(r"\.(ParseAny|Parse|StrictParse)\((.*)\)(?: wrapped)?$", label)
+    vname = call.group(2) if call else (body[4] if len(body) > 4 else "?")
+    lab = label[:call.start()] if call else label
+    fam = family(lab)
+    if kind.startswith("dflt:"):
+        m = re.search(r"\.(Default|Prefault)\(", lab)
+        return "%s:dflt:%s:%s" % (ob, m.group(1) if m else "?", fam)
+    z = re.search(r"\.([A-Za-z0-9]+)/zero", lab)
+    if z:
+        return "%s:zero-arg:%s:%s" % (ob, z.group(1), fam)
+    if vname.startswith("cyclic-*any"): vc = "cyclic-ptr-to-interface"
+    elif "cyclic" in vname: vc = "cyclic-input"
+    else:
+        vc = re.sub(r"^\*+", "", vname)
+        vc = re.sub(r"@\d+$", "", vc)
+        vc = re.sub(r"^<(.*)>$", r"nested:\1", vc)
+    return "%s:%s:%s" % (ob, fam, vc)
 
 def describe(op):
     return C.op_comment(op).strip()
 
+def suspicious_rows():
+    """rows of the regenerated creator table the translator could not classify (they make the table theorems fail):
+    named so that the failing-input search can be aimed at the functions"""
+    rows, cur = [], ""
+    try:
+        for ln in open(os.path.join(C.LEAN, "Gozod", "Gen", "IssueCreators.lean")):
+            if "{ name :=" in ln: cur = ln.split('"')[1]
+            if ".unknown" in ln or "9999" in ln or "(false, {" in ln: rows.append(cur)
+    except OSError: pass
+    return sorted(set(rows))
+
 def run(res):
+    err = translate(res)
+    if err:
+        C.tie_broken(res, "translator c04gen", err)
+        return res.finish()
     ok, detail = C.prove(res, MODULES, THEOREMS)
     if not ok:
-        C.tie_broken(res, "proof Gozod.Proofs.C04", detail)
+        sus = suspicious_rows()
+        C.tie_broken(res, "proof Gozod.Proofs.C04 / C04Creators (tables regenerated from internal/issues, core/constants.go)",
+                     ("creators the translator could not certify: %s\n\n" % ", ".join(sus) if sus else "") + detail)
     data, err = C.correspond(res, "C04")
     if data is None:
         C.tie_broken(res, "correspondence C04/totality", err)
         return res.finish()
     ops, impl, model, stats = data
+    # constructor enumeration (c04gen -> ctors_gen.go): everything listed is called, or is a reviewed exception
+    unc = {k: v for k, v in (stats.get("ctor_uncallable") or {}).items() if k.split("#")[0] not in REVIEWED_UNCALLABLE}
+    gen_unc = [g for g in (stats.get("generic_uncovered") or [])]
+    if unc or gen_unc:
+        C.tie_broken(res, "constructor enumeration",
+                     "exported constructors of package gozod/coerce the harness does not cover:\n  uncallable: %r\n  generic without instantiation: %r\n"
+                     "(add an argument rule to ctorArg / an instantiation to genericInst in harness/cmd/c04/ctors.go)" % (unc, gen_unc))
+    res.coverage["constructors"] = {"listed": stats.get("ctor_listed"), "schemas_built": stats.get("ctor_built"),
+                                    "not_schema_functions": len(stats.get("ctor_non_schema") or []),
+                                    "generic": len(stats.get("generic_listed") or []), "uncallable_reviewed": sorted((stats.get("ctor_uncallable") or {}).keys())}
     # the statement's oracle on the observation: conforming outcomes are ok / err(wf) / total
     conforming = {"ok", "err(wf)", "total"}
     ops2, impl2, model2 = [], [], []
